@@ -35,7 +35,7 @@ struct Th {
     Watch w[NWATCH]; int nw; bool spinning_forced;
     mv_idle_cell* cell; uint64_t deadline; int join_target; void* obj; bool signaled;
     pthread_t pth; void* (*start)(void*); void* arg; void* ret; volatile bool done; bool yielding;
-    char name[24]; void* stack; uint32_t ops; uint32_t consec;
+    char name[24]; void* stack; uint32_t ops; uint32_t consec; void* switching_from; uint64_t switch_mark_age;
 };
 
 Th TH[MAXT]; int NT = 0;
@@ -110,6 +110,7 @@ void give_baton(Th* t) { t->go = 1; futex_wake(&t->go); }
 // me holds the baton and has set me->wait. Returns when me holds the baton again and is enabled.
 void schedule(Th* me, const char* what, uintptr_t addr, bool exiting = false) {
     npoints++;
+    if (me->switching_from && strcmp(what, "prepare_switch") != 0) me->switching_from = nullptr;     // its context switch has completed
     for (;;) {
         Th* list[MAXT]; int n = 0;
         bool me_enabled = !exiting && is_enabled(me);
@@ -229,6 +230,19 @@ void mv_init(void) {
 void mv_fini(void) {
     for (int i = 1; i < NT; i++) if (!TH[i].done) pmc_broken("mv_fini: thread T%d (%s) still alive", i, TH[i].name);
     active = false; self = nullptr;
+}
+// guarded source hook (thread/thread.cpp, -DPHOTON_VERIF): called right before a context switch saves `from`'s stack pointer and
+// loads `to`'s. It is a scheduling point inside otherwise unhooked code, and it lets the runtime see a thread being resumed
+// on one vCPU while another vCPU has not yet saved that thread's context (work stealing took it out of a run queue too early).
+void photon_verif_switch(void* from, void* to) {
+    if (!ON()) return;
+    Th* me = self;
+    for (int i = 0; i < NT; i++) if (i != me->id && TH[i].switching_from == to && to)
+        pmc_violation("resumed-before-context-saved", "T%d (%s) switches to photon thread %p while T%d (%s) is still between releasing its run-queue lock and saving that thread's context",
+                      me->id, me->name, to, i, TH[i].name);
+    me->switching_from = from;
+    me->wait = W_NONE; schedule(me, "prepare_switch", (uintptr_t)from);
+    // the switch itself follows immediately and contains no scheduling point: the mark is cleared at this OS thread's next point
 }
 void mv_yield(const char* label) { if (!ON()) return; Th* me = self; me->wait = W_NONE; schedule(me, label ? label : "yield", 0); }
 uint64_t mv_now(void) { return vnow; }
